@@ -14,6 +14,10 @@ args, jobs, tier = a_.patterns, a_.jobs, a_.tier
 seeds = sorted(d for d in glob.glob(os.path.join(V, "seeded", "*")) if os.path.exists(os.path.join(d, "patch.diff")))
 if args:
     seeds = [s for s in seeds if any(a in s for a in args)]
+obsolete = [s for s in seeds if json.load(open(os.path.join(s, "meta.json"))).get("obsolete")]
+seeds = [s for s in seeds if s not in obsolete]
+for s in obsolete:
+    print("%-24s OBSOLETE (no longer breaks the property on the current tree, see meta.json)" % os.path.basename(s))
 def run(d):
     r = subprocess.run([sys.executable, os.path.join(V, "tools", "seedtest.py"), d, "--tier", tier],
                        stdout=subprocess.PIPE, stderr=subprocess.STDOUT, text=True)
